@@ -578,7 +578,11 @@ func c12Hostile(w *mon.W, no int) {
 		for f.expect == "msg" {
 			f = genFrameC03(w, g, 65536, false)
 		}
-		frames = append(frames, f.bytes)
+		fb := append([]byte{}, f.bytes...)
+		if len(fb) >= 7 {
+			fb[5], fb[6] = 0x77, 0x77 // never the tag of a pending call: a frame that happens to decode must not pass for a reply
+		}
+		frames = append(frames, fb)
 		killsStream = true
 		w.Count("hostile:abnormal-frame", 1)
 	default:
